@@ -6,6 +6,7 @@ mod s_biguint;
 mod s_date;
 mod s_preview;
 mod s_crash;
+mod s_intr;
 mod s_serde;
 mod s_text;
 
@@ -36,6 +37,7 @@ fn main() {
         "strlit" => s_text::strlit_line,
         "preview" => s_preview::line,
         "crash" => s_crash::line,
+        "intr" => s_intr::line,
         "serde" => s_serde::serde_line,
         "deser" => s_serde::deser_line,
         _ => {
